@@ -4,6 +4,7 @@ import re
 
 from ..common import Report
 from ..corpus import load, load_repo_tests
+from ..crossgen import load_cross
 from ..deleg import all_calls, walk, real_adjusts, callee_of
 from ..wrules import (is_mock_impl, FnModView, TraitView, ImplBlockView, trait_methods, impl_methods, in_macro, last_seg,
                       entrait_depth)
@@ -91,6 +92,7 @@ def run(tier):
     configs = ["plain", "unimock_test"] if tier == "quick" else ["plain", "test", "unimock", "unimock_test"]
     programs = 0
     loaded = [(cfg, load(rep, "pos", cfg)) for cfg in configs]
+    loaded += [(cfg, load_cross(rep, cfg, tier)) for cfg in configs]
     if tier == "thorough":
         loaded.append(("unimock_test", load_repo_tests(rep)))
     for cfg, ld in loaded:
